@@ -84,13 +84,23 @@ def world_multi(r, wid):
     return {"id": wid, "kind": "multi", "script": {"head": head, "items": items}}
 
 
+NONDYADIC = ["0.1", "0.2", "0.3", "0.7", "1.1", "2.3", "1e-3", "0.6", "4.7"]
+
+
 def world_include(r, wid):
     nm = r.randint(2, 4)
     modes = r.sample([1, 3, 7, 8, 9, 12, 16, 17, 24, 32, 33], nm)
-    names = r.sample(OVERLAP, r.randint(0, 3))
+    names = r.sample(OVERLAP, r.randint(0, 4))
     lines = ["name Sub", "version 1.0", ""]
     for m in modes:
-        if names and r.random() < 0.6:
+        k = r.random()
+        if len(names) >= 3 and k < 0.4:
+            # a plain sum over three or four parameters (float addition is not associative:
+            # the value depends on the order in which the terms are accumulated)
+            use = r.sample(names, r.randint(3, len(names)))
+            e = "+".join(r.choice(["{%s}", "{%s}", "2*{%s}", "0.5*{%s}"]) % n for n in use)
+            lines.append("%s(%s) | %d" % (r.choice(G.GATES1), e, m))
+        elif names and k < 0.75:
             lines.append("%s(%s) | %d" % (r.choice(G.GATES1), sym_expr(r, names) if len(names) > 1 else "{%s}" % names[0], m))
         else:
             lines.append("%s(%s) | %d" % (r.choice(G.GATES1), G.num(r), m))
@@ -104,7 +114,8 @@ def world_include(r, wid):
     for _ in range(r.randint(1, 2)):
         ms = r.sample(range(0, 9), nm)
         if names:
-            items.append(["Sub(%s) | [%s]" % (", ".join("%s=%s" % (n, G.num(r)) for n in names),
+            items.append(["Sub(%s) | [%s]" % (", ".join("%s=%s" % (n, r.choice(NONDYADIC) if r.random() < 0.7 else G.num(r))
+                                                        for n in names),
                                               ", ".join(map(str, ms)))])
         else:
             items.append(["Sub | [%s]" % ", ".join(map(str, ms))])
